@@ -14,9 +14,9 @@ import (
 	"cosmossdk.io/math"
 	sdk "github.com/cosmos/cosmos-sdk/types"
 	"github.com/cosmos/cosmos-sdk/types/query"
+	authtypes "github.com/cosmos/cosmos-sdk/x/auth/types"
 	banktypes "github.com/cosmos/cosmos-sdk/x/bank/types"
 	distributiontypes "github.com/cosmos/cosmos-sdk/x/distribution/types"
-	authtypes "github.com/cosmos/cosmos-sdk/x/auth/types"
 
 	ophosttypes "github.com/initia-labs/OPinit/x/ophost/types"
 
@@ -41,21 +41,21 @@ type outSnap struct {
 }
 
 type wBridge struct {
-	id      uint64
-	exists  bool
-	period  time.Duration
-	nextSeq uint64
-	outputs []*ProposedOutput // live outputs; outputs[i] has index i+1
-	dead    []*ProposedOutput
-	ledger  map[string]*big.Int
-	pairs   map[string]string
-	pool    []Withdrawal
-	all     []Withdrawal // every fabricated withdrawal
-	paid    map[[32]byte]int
-	nextL2  uint64
-	final   map[uint64]outSnap // outputs once observed final
-	pastP   []sim.Account
-	pastC   []sim.Account
+	id       uint64
+	exists   bool
+	period   time.Duration
+	nextSeq  uint64
+	outputs  []*ProposedOutput // live outputs; outputs[i] has index i+1
+	dead     []*ProposedOutput
+	ledger   map[string]*big.Int
+	pairs    map[string]string
+	pool     []Withdrawal
+	all      []Withdrawal // every fabricated withdrawal
+	paid     map[[32]byte]int
+	nextL2   uint64
+	final    map[uint64]outSnap // outputs once observed final
+	pastP    []sim.Account
+	pastC    []sim.Account
 	metadata []byte
 }
 
@@ -71,16 +71,17 @@ type WorldCfg struct {
 }
 
 type L1World struct {
-	run  *mon.Run
-	rng  *mon.Rand
-	env  *L1Env
-	mons MonSet
-	cfg  WorldCfg
-	br   map[uint64]*wBridge
-	log  []string
-	fee  sdk.Coins
+	run       *mon.Run
+	rng       *mon.Rand
+	env       *L1Env
+	mons      MonSet
+	cfg       WorldCfg
+	br        map[uint64]*wBridge
+	log       []string
+	fee       sdk.Coins
 	strangers []sim.Account
-	nCreated uint64
+	whale     sim.Account
+	nCreated  uint64
 
 	// per-history feature flags for non-triviality accounting
 	feat map[string]int
@@ -107,6 +108,10 @@ func newL1World(run *mon.Run, rng *mon.Rand, mons MonSet, cfg WorldCfg) *L1World
 		s := sim.NewAccount(fmt.Sprintf("stranger%d", i))
 		w.strangers = append(w.strangers, s)
 		w.env.L1.Fund(s.Addr, sdk.NewCoin("uinit", math.NewInt(1000)))
+	}
+	w.whale = sim.NewAccount("l1whale")
+	for _, d := range w.env.Denoms {
+		w.env.L1.Fund(w.whale.Addr, sdk.NewCoin(d, math.NewIntFromUint64(1<<63).MulRaw(64)))
 	}
 	if cfg.MaxIDs == 0 {
 		w.cfg.MaxIDs = uint64(cfg.Bridges) + 2
@@ -597,6 +602,10 @@ func (w *L1World) opDeposit() {
 	if w.rng.Chance(2) {
 		id = 0
 	}
+	w.opDepositTo(id)
+}
+
+func (w *L1World) opDepositTo(id uint64) {
 	b := w.br[id]
 	sender := w.anyUser()
 	denom := mon.Pick(w.rng, w.env.Denoms)
@@ -606,6 +615,10 @@ func (w *L1World) opDeposit() {
 		amt = math.ZeroInt()
 	case 1:
 		amt = math.NewInt(userFunds).MulRaw(1000) // over balance
+	case 2:
+		// amounts around the signed / unsigned 64-bit boundaries, paid by an account that can afford them
+		sender = w.whale
+		amt = mon.Pick(w.rng, []math.Int{math.NewIntFromUint64(1<<63 - 1), math.NewIntFromUint64(1 << 63), math.NewIntFromUint64(1<<63 + 12345), math.NewIntFromUint64(1<<64 - 1), math.NewIntFromUint64(1 << 62)})
 	default:
 		amt = math.NewInt(int64(1 + w.rng.Intn(100000)))
 	}
@@ -624,7 +637,11 @@ func (w *L1World) opDeposit() {
 	expect := expectDelta{}
 	if res.Class == sim.OK {
 		if b == nil {
-			w.run.Fail("C10.real_bridges_only", "c10.deposit_to_bridge_zero", w.trace(), "deposit to bridge id %d accepted", id)
+			clause := "C10.real_bridges_only"
+			if w.mons.C01 && !w.mons.C10 {
+				clause = "C01.conservation" // funds escrowed under an id no bridge has: matched by no deposit into a bridge
+			}
+			w.run.Fail(clause, "c10.deposit_to_unassigned_id", w.trace(), "deposit to bridge id %d accepted although no bridge has that id (%s%s escrowed)", id, amt, denom)
 			return
 		}
 		seq := res.Resp().(*ophosttypes.MsgInitiateTokenDepositResponse).Sequence
@@ -917,9 +934,21 @@ func (w *L1World) verifyClaim(m *ophosttypes.MsgFinalizeTokenWithdrawal) claimVe
 		v.paidBefore = b.paid[v.leaf] > 0
 	}
 	o, err := l1.Q.OutputProposal(l1.Ctx, &ophosttypes.QueryOutputProposalRequest{BridgeId: m.BridgeId, OutputIndex: m.OutputIndex})
-	if err != nil {
+	// what the store holds at that index, read by iteration (a per-key read path could be served from somewhere else)
+	var listed *ophosttypes.QueryOutputProposalResponse
+	for _, lo := range w.queryOutputs(m.BridgeId) {
+		if lo.OutputIndex == m.OutputIndex {
+			lo := lo
+			listed = &lo
+		}
+	}
+	if (err == nil) != (listed != nil) || (listed != nil && !bytes.Equal(listed.OutputProposal.OutputRoot, o.OutputProposal.OutputRoot)) {
+		w.run.Fail("C03.single_and_listed_output_agree", "c03.output_read_paths_disagree", w.trace(), "Query/OutputProposal(%d,%d) and the paginated Query/OutputProposals disagree about what index %d stores", m.BridgeId, m.OutputIndex, m.OutputIndex)
+	}
+	if listed == nil {
 		return v
 	}
+	o = listed
 	v.outputExists = true
 	if len(m.Version) == 1 && len(m.StorageRoot) == 32 && len(m.LastBlockHash) == 32 {
 		or := ref.OutputRoot(m.Version[0], m.StorageRoot, m.LastBlockHash)
@@ -1229,6 +1258,53 @@ func (w *L1World) opAdvance() {
 	w.checkQuiescent()
 }
 
+// opDiscarded executes a short script on a branch that is then thrown away (a multi-message transaction whose last
+// message fails, a simulation, CheckTx). Nothing of it may influence the committed history afterwards.
+func (w *L1World) opDiscarded() {
+	br := w.env.L1.Branch()
+	user := w.anyUser()
+	switch w.rng.Intn(3) {
+	case 0:
+		// a bridge is created (it would get the next id) with a short period, used, and never committed
+		nid, _ := w.env.L1.K.GetNextBridgeId(w.env.L1.Ctx)
+		p := sim.NewAccount("discarded-proposer")
+		r1 := br.Deliver(ophosttypes.NewMsgCreateBridge(user.String(), bridgeConfig(p.String(), p.String(), time.Second, nil)))
+		r2 := br.Deliver(ophosttypes.NewMsgInitiateTokenDeposit(user.String(), nid, "l2x", sdk.NewCoin("uinit", math.NewInt(5)), nil))
+		r3 := br.Deliver(ophosttypes.NewMsgProposeOutput(p.String(), nid, 1, 10, bytes.Repeat([]byte{0xdd}, 32)))
+		br.NextBlock(2 * time.Second)
+		r4 := br.Deliver(ophosttypes.NewMsgDeleteOutput(p.String(), nid, 1))
+		w.logf("on a discarded branch: create bridge %d (1s period) %s, deposit %s, propose %s, delete %s", nid, r1.Class, r2.Class, r3.Class, r4.Class)
+		if r1.Class == sim.OK && r2.Class == sim.OK {
+			w.feat["discarded_bridge_used"]++
+		}
+		// the id is still unassigned in the committed state
+		w.opDepositTo(nid)
+	default:
+		// on an existing bridge: (delete the last output,) propose another root at the next index and try to claim against it
+		b := w.pickExisting()
+		if b == nil {
+			return
+		}
+		roles := w.env.Bridges[b.id]
+		next, _ := br.K.GetNextOutputIndex(br.Ctx, b.id)
+		if next > 1 && w.rng.Bool() {
+			br.Deliver(ophosttypes.NewMsgDeleteOutput(roles.Challenger.String(), b.id, next-1))
+			next, _ = br.K.GetNextOutputIndex(br.Ctx, b.id)
+		}
+		ws := []Withdrawal{{b.id, 900000 + uint64(w.rng.Intn(1000)), "l2ghost", user.String(), "uinit", 77}}
+		o := BuildOutput(b.id, ws, 0, w.rng)
+		o.Index = next
+		r1 := br.Deliver(ophosttypes.NewMsgProposeOutput(roles.Proposer.String(), b.id, next, roles.LastL2+100, o.OutputRoot[:]))
+		r2 := br.Deliver(o.Claim(0, user.String()))
+		w.logf("on a discarded branch: bridge %d propose ghost output at %d -> %s, claim against it -> %s", b.id, next, r1.Class, r2.Class)
+		if r1.Class == sim.OK {
+			// remember the ghost: later claims against it must be refused unless that very root is committed for real
+			b.dead = append(b.dead, o)
+		}
+	}
+	w.checkQuiescent()
+}
+
 var defaultWeights = map[string]int{"create": 2, "deposit": 22, "send": 5, "propose": 14, "delete": 6, "finalize": 30, "role": 6, "batch": 2, "params": 2, "advance": 16}
 
 // Run executes cfg.Steps random operations.
@@ -1278,6 +1354,9 @@ func (w *L1World) Run() {
 			w.opUpdateParams()
 		case "advance":
 			w.opAdvance()
+		}
+		if w.rng.Chance(6) {
+			w.opDiscarded()
 		}
 		w.run.State(sim.Digest(w.env.L1.Dump(ophosttypes.StoreKey)))
 	}
